@@ -78,7 +78,7 @@ func C04(tier string) int {
 		Opts:     RunOpts{Inits: []string{"pkg/bmnumbers", "pkg/procbuilder", "pkg/bondmachine"}, ConfigBudgetS: 1500, TimeoutMs: 120000},
 		Configs:  FilterConfigs(cfgs),
 		Assumptions: []string{
-			"simulator side only: bondmachine.VM.Step, Processor_execute, procbuilder.VM.Step, R2owa/I2rw.Simulate, waitRecvI2rw, Add/ExecuteDeferredInstructions executed symbolically; the generated hardware is not part of this check yet",
+			"simulator side: bondmachine.VM.Step, Processor_execute, procbuilder.VM.Step, R2owa/I2rw.Simulate, waitRecvI2rw, Add/ExecuteDeferredInstructions executed symbolically; the generated hardware is covered by the hdl configurations (their bounds are listed with them)",
 			"one producer (opcodes inc,j,nop,r2owa) bonded to k consumers (cpy,i2rw,inc,j,nop), 8-bit registers, R=1; every ROM word of the first program_words addresses and every initial register is a solver variable (any instruction mix, any padding, hence any relative speed); the rest of the ROM jumps to 0",
 			"port-selection configurations: concrete two-instruction programs on processors whose input and output counts need different index widths; the value sent on o<j> (a solver variable) is received from i<e> within 8 ticks",
 			"fan-in configurations: two producers bonded to the two inputs of one consumer (N=2), the same monitor per link",
